@@ -484,6 +484,16 @@ pub fn e2e_session(rep: &mut Report, seed: u64, verbose: bool) -> bool {
         }
         script.push(format!("u8:{:x}:{:x}", text0 + i as u32, b));
     }
+    // over-long junk lines whose tail, cut at a typical buffer size, would read as a well-formed poke
+    // of the text (or as a stop command): one line is one message, however long
+    if !poked.is_empty() {
+        for _ in 0..(2 + rng.below(4)) {
+            let cut = *rng.pick(&[255usize, 256, 512, 1023, 1024, 2048, 4095, 4096, 4097, 8192, 16384, 65536]);
+            let i = rng.below(poked.len() as u64) as usize;
+            let tail = if rng.chance(1, 4) { "cmd:stop".to_string() } else { format!("u8:{:x}:{:x}", text0 + i as u32, poked[i] ^ 0x33) };
+            script.push(format!("{}{}", "#".repeat(cut), tail));
+        }
+    }
     script.push("cmd:pause".into());
     script.push("cmd:start".into());
     let mode = rng.below(4);
@@ -511,11 +521,13 @@ pub fn e2e_session(rep: &mut Report, seed: u64, verbose: bool) -> bool {
         2 => {
             // lines split mid-way with delays
             let mut i = 0;
+            // about 60 pauses over the whole payload (each costs a read time-out)
+            let pause_every = (payload.len() as u64 / 4 / 60).max(6);
             while i < payload.len() {
                 let n = (1 + rng.below(7) as usize).min(payload.len() - i);
                 let _ = stream.write_all(&payload[i..i + n]);
                 i += n;
-                if rng.chance(1, 6) {
+                if rng.chance(1, pause_every) {
                     std::thread::sleep(std::time::Duration::from_millis(rng.below(4)));
                     pump(&mut stream, &mut transcript);
                 }
@@ -548,6 +560,8 @@ pub fn e2e_session(rep: &mut Report, seed: u64, verbose: bool) -> bool {
     while count_lines(&transcript) < expected.len() && std::time::Instant::now() < deadline {
         pump(&mut stream, &mut transcript);
     }
+    // the emulator ending on its own before the guest finished and before any stop command was sent
+    let ended_early = count_lines(&transcript) < expected.len() && transcript.starts_with(b"ready\n") && matches!(child.try_wait(), Ok(Some(_)));
     let _ = stream.write_all(b"cmd:stop\n");
     let _ = stream.flush();
     let t_end = std::time::Instant::now() + std::time::Duration::from_secs(5);
@@ -567,6 +581,14 @@ pub fn e2e_session(rep: &mut Report, seed: u64, verbose: bool) -> bool {
     let _ = std::fs::remove_file(&path);
     rep.evaluations += 1;
     rep.cell("chunking-mode", &[mode]);
+    if ended_early {
+        rep.finding(
+            "e2e|ended-without-stop-command",
+            || format!("the emulator process ended after {} of {} expected messages although no stop command had been sent (chunking mode {}, seed {})", count_lines(&transcript), expected.len(), mode, seed),
+            || replay.clone(),
+        );
+        return true;
+    }
     if count_lines(&transcript) < expected.len() {
         rep.count("e2e_timeouts_inconclusive", 1);
         if verbose {
